@@ -175,21 +175,20 @@ def materialise(spec: dict) -> dict:
 
 # ------------------------------------------------------------------ distances
 def hs_distance_stable(U: np.ndarray, V: np.ndarray) -> float:
-    """Same quantity as refsim.hs_distance, sqrt(1-(|tr U^dag V|/N)^2),
-    computed as sqrt((1-x)(1+x)) with 1-x = |U - e^{i phi} V|_F^2 / (2N): the
-    direct formula loses half the digits near 0 (3e-8 noise floor)."""
-    n = U.shape[0]
-    ov = np.vdot(V, U)
-    x = abs(ov) / n
-    if x > 1 + 1e-9:
+    """sqrt(1 - x^2) with x = |<U,V>| / (|U|_F |V|_F), evaluated as
+    sqrt((1-x)(1+x)) where 1-x = |U/|U| - e^{i phi} V/|V||_F^2 / 2.  For
+    unitaries x = |tr U^dag V|/N, the repo's metric; the direct formula
+    (refsim.hs_distance) loses half the digits near 0 (noise floor ~3e-8,
+    more when a gate matrix is unitary only to 1e-14)."""
+    nu, nv = float(np.linalg.norm(U)), float(np.linalg.norm(V))
+    if nu == 0 or nv == 0:
         return float('inf')
+    A, B = U / nu, V / nv
+    ov = np.vdot(B, A)
     ph = ov / abs(ov) if abs(ov) > 1e-300 else 1.0
-    nu = float(np.linalg.norm(U)) ** 2
-    nv = float(np.linalg.norm(V)) ** 2
-    one_minus_x = (float(np.linalg.norm(U - ph * V)) ** 2
-                   - (nu - n) - (nv - n)) / (2 * n)
-    one_minus_x = max(0.0, one_minus_x)
-    return float(np.sqrt(one_minus_x * (1 + min(1.0, x))))
+    one_minus_x = float(np.linalg.norm(A - ph * B)) ** 2 / 2
+    x = 1 - one_minus_x
+    return float(np.sqrt(max(0.0, one_minus_x * (1 + x))))
 
 
 def distance(U: np.ndarray, V: np.ndarray) -> tuple:
@@ -197,8 +196,8 @@ def distance(U: np.ndarray, V: np.ndarray) -> tuple:
     judge; when it exceeds 5e-8 it is re-evaluated in the well-conditioned
     form so that rounding in 1-x^2 cannot raise an alarm."""
     d = refsim.hs_distance(U, V)
-    if d > 5e-8:
-        d = min(d, hs_distance_stable(U, V)) if np.isfinite(d) else d
+    if d > 1e-8:
+        d = hs_distance_stable(U, V)
     return d, refsim.phase_max_diff(U, V)
 
 
@@ -270,11 +269,19 @@ class Runtime:
             try:
                 self.comp = Compiler('localhost', sp)
                 self.starts += 1
+                self._warm_up()
                 return
             except Exception as e:       # port race / server died: retry
                 last = e
                 self.kill()
         raise core.HarnessError(f'cannot start a runtime server: {last!r}')
+
+    def _warm_up(self) -> None:
+        """The worker imports bqskit on its first task (tens of seconds on a
+        busy machine); keep that out of the first case's hang guard."""
+        from bqskit.ir.circuit import Circuit
+        from bqskit.passes.noop import NOOPPass
+        self.compile(Circuit(1), [NOOPPass()], {}, 900.0)
 
     def kill(self) -> None:
         procs = []
@@ -394,15 +401,16 @@ _FRAME = re.compile(r'File "([^"]+)", line \d+, in (\S+)')
 
 
 def _sig_from_frames(frames, etype: str) -> str:
-    """exc|<innermost frame in bqskit/passes>|<type>|<innermost bqskit frame>:
-    the same root cause reached through different rows gets the same sig."""
+    """exc|<innermost frame in bqskit/passes>|<type>|<innermost bqskit file>.
+    The same root cause reached through different rows (or through different
+    helper functions of the same module below the pass) gets the same sig."""
     inner = pas = 'outside'
     for fn, name in frames:
-        fn = fn.replace('\\', '/')
+        fn = fn.replace(chr(92), '/')
         if '/bqskit/' in fn:
-            inner = f'{os.path.basename(fn)}:{name}'
+            inner = os.path.basename(fn)
             if '/bqskit/passes/' in fn:
-                pas = inner
+                pas = f'{os.path.basename(fn)}:{name}'
     return f'exc|{pas}|{etype}|{inner}'
 
 
@@ -471,7 +479,7 @@ class Row:
     def __init__(
         self, name, klass, gen, make, post=None, runtime=False, R=None,
         eps=None, tol=None, rejects=None, reference=None, planted=None,
-        q=4, t=300, guard_s=GUARD_S, nontrivial=None,
+        q=4, t=100, guard_s=GUARD_S, nontrivial=None, feature=None,
     ):
         assert klass in ('exact', 'analytic', 'numerical')
         self.name, self.klass, self.gen, self.make = name, klass, gen, make
@@ -483,6 +491,7 @@ class Row:
         self.tol, self.rejects, self.reference = tol, rejects, reference
         self.planted = planted
         self.nontrivial = nontrivial
+        self.feature = feature      # coarse input feature appended to sigs
         self.q, self.t, self.guard_s = q, t, guard_s
 
     def tolerance(self, case, cin) -> float:
@@ -543,6 +552,9 @@ def check(case) -> Outcome:
         return out
     except RemoteError as e:
         sig, last = remote_exc_sig(str(e))
+        if sig.startswith('exc|outside'):
+            raise core.HarnessError('runtime task failed outside any pass:\n'
+                                    + str(e))
         if r.rejects is not None and r.rejects(case, sig, last):
             out.label('documented-rejection:' + r.name)
             return out
@@ -552,7 +564,7 @@ def check(case) -> Outcome:
         raise
     except Exception as e:
         sig, last = local_exc_sig(e)
-        if '|outside' in sig and sig.startswith('exc|outside'):
+        if sig.startswith('exc|outside'):
             raise
         if r.rejects is not None and r.rejects(case, sig, last):
             out.label('documented-rejection:' + r.name)
@@ -569,7 +581,19 @@ def check(case) -> Outcome:
         return out
 
     # unitary preserved
-    U_out = refsim.circuit_unitary(cout)
+    feat = '' if r.feature is None else '|' + r.feature(case)
+    try:
+        U_out = refsim.circuit_unitary(cout)
+        if not np.all(np.isfinite(U_out)):
+            raise ValueError('non-finite entries')
+    except Exception as e:
+        # the pass emitted parameters its own gate cannot turn into a matrix
+        out.fail(
+            f'output_not_a_unitary|{r.name}{feat}|{type(e).__name__}',
+            f'{e!r} opts={case["opts"]} out='
+            f'{[(gname(g), p) for g, _, p in op_list(cout)][:4]}',
+        )
+        return out
     U_ref = U_in if r.reference is None else r.reference(case, U_in, data, out)
     if U_ref is not None:
         d, pm = distance(U_ref, U_out)
@@ -579,7 +603,7 @@ def check(case) -> Outcome:
         )
         if not (d <= tol) or not (pm <= ptol):
             out.fail(
-                f'unitary|{r.name}',
+                f'unitary|{r.name}{feat}',
                 f'hs={d:.3e} maxdiff={pm:.3e} tol={tol:.3e} '
                 f'opts={case["opts"]} in={cin.num_operations} ops '
                 f'out={cout.num_operations} ops',
@@ -798,7 +822,7 @@ def _rule_post(name):
 
 for _n in RULE_ROWS:
     row(_n, 'exact', _rule_gen(_n), _rule_make(_n), _rule_post(_n),
-        q=6, t=600)
+        q=4, t=150)
 
 
 # ------------------------------------------------- single-qudit rule passes
@@ -823,7 +847,7 @@ def _u3_post(case, cin, cout, info, out):
 
 row('U3Decomposition', 'exact', _u3_gen,
     lambda case: {'passes': [_passes().U3Decomposition()]}, _u3_post,
-    q=6, t=600)
+    q=4, t=150)
 
 ZX_SETS = {
     'default': None,
@@ -890,14 +914,14 @@ def _zx_post(case, cin, cout, info, out):
                  str([gname(x) for x in ops]))
 
 
-row('ZXZXZDecomposition', 'exact', _zx_gen, _zx_make, _zx_post, q=8, t=800)
+row('ZXZXZDecomposition', 'exact', _zx_gen, _zx_make, _zx_post, q=5, t=200)
 
 GSQ_CHOICES = {
     2: ['U3Gate', 'PauliGate', 'VariableUnitaryGate'],
     3: ['U8Gate', 'VariableUnitaryGate'],
     4: ['VariableUnitaryGate'],
 }
-SIG_GSQ_QUDIT = 'exc|general.py:run|ValueError|circuit.py:check_valid_operation'
+SIG_GSQ_QUDIT = 'exc|general.py:run|ValueError|circuit.py'
 
 
 def _general_gate(name: str, radix: int):
@@ -940,7 +964,7 @@ def _gsq_post(case, cin, cout, info, out):
 
 
 row('GeneralSQDecomposition', 'exact', _gsq_gen, _gsq_make, _gsq_post,
-    q=8, t=800)
+    q=5, t=200, feature=lambda case: case['opts']['general'])
 
 
 # =============================================================== utility rows
@@ -1011,7 +1035,7 @@ def _tou3_post(case, cin, cout, info, out):
 
 row('ToU3Pass', 'exact', _conv_gen,
     lambda case: {'passes': [_passes().ToU3Pass(case['opts']['all'])]},
-    _tou3_post, q=6, t=600)
+    _tou3_post, q=4, t=150)
 
 
 def _tovar_post(case, cin, cout, info, out):
@@ -1039,7 +1063,7 @@ def _tovar_post(case, cin, cout, info, out):
 
 row('ToVariablePass', 'exact', _conv_gen,
     lambda case: {'passes': [_passes().ToVariablePass(case['opts']['all'])]},
-    _tovar_post, q=6, t=600)
+    _tovar_post, q=4, t=150)
 
 
 @st.composite
@@ -1067,11 +1091,14 @@ def block_op(draw, radixes):
 
 @st.composite
 def _bc_gen(draw, avoid):
+    o = {'target': draw(st.sampled_from(['variable', 'constant'])),
+         'variable': draw(st.booleans()), 'constant': draw(st.booleans()),
+         'circuitgates': draw(st.booleans())}
+    hit = {'bc_cg_variable', 'bc_cg_variable2'} & avoid
+    if hit and o['target'] == 'variable':
+        o['circuitgates'] = o['constant']
     return {
-        'opts': {'target': draw(st.sampled_from(['variable', 'constant'])),
-                 'variable': draw(st.booleans()),
-                 'constant': draw(st.booleans()),
-                 'circuitgates': draw(st.booleans())},
+        'opts': o, 'excluded': int(bool(hit)),
         'circ': draw(mixed_circuit(block_op, max_n=4, max_ops=8, p_extra=7,
                                    nested=0)),
         'seed': 0,
@@ -1114,7 +1141,7 @@ def _bc_post(case, cin, cout, info, out):
             )
 
 
-row('BlockConversionPass', 'exact', _bc_gen, _bc_make, _bc_post, q=8, t=800)
+row('BlockConversionPass', 'exact', _bc_gen, _bc_make, _bc_post, q=5, t=200)
 
 
 # ------------------------------------------------------------ structural rows
@@ -1166,7 +1193,7 @@ def _fill_post(case, cin, cout, info, out):
 
 
 row('FillSingleQuditGatesPass', 'exact', _fill_gen, _fill_make, _fill_post,
-    q=6, t=600)
+    q=4, t=150)
 
 
 @st.composite
@@ -1234,7 +1261,7 @@ def _extend_post(case, cin, cout, info, out):
 
 
 row('ExtendBlockSizePass', 'exact', _extend_gen, _extend_make, _extend_post,
-    q=6, t=600)
+    q=4, t=150)
 
 
 @st.composite
@@ -1273,7 +1300,7 @@ def _group_post(case, cin, cout, info, out):
 row('GroupSingleQuditGatePass', 'exact',
     lambda avoid: _any_gen(avoid, placeholders=True, nested=1),
     lambda case: {'passes': [_passes().GroupSingleQuditGatePass()]},
-    _group_post, q=6, t=600)
+    _group_post, q=4, t=150)
 
 
 def _same_program_post(name, no_blocks):
@@ -1313,11 +1340,11 @@ def _placed(c):
 
 row('CompressPass', 'exact', _compress_gen,
     lambda case: {'passes': [_passes().CompressPass()]},
-    _same_program_post('CompressPass', False), q=5, t=500,
+    _same_program_post('CompressPass', False), q=4, t=150,
     nontrivial=lambda case, cin, cout, info: _placed(cin) != _placed(cout))
 row('UnfoldPass', 'exact', lambda avoid: _any_gen(avoid, True, 2),
     lambda case: {'passes': [_passes().UnfoldPass()]},
-    _same_program_post('UnfoldPass', True), q=6, t=600)
+    _same_program_post('UnfoldPass', True), q=4, t=150)
 
 READONLY = ['NOOPPass', 'LogPass', 'LogErrorPass', 'RecordStatsPass',
             'StructureAnalysisPass', 'SetRandomSeedPass', 'UpdateDataPass']
@@ -1348,7 +1375,7 @@ def _ro_post(case, cin, cout, info, out):
 
 
 # non-trivial for passes that must not rewrite: the circuit has >= 3 operations
-row('ReadOnlyUtilityPasses', 'exact', _ro_gen, _ro_make, _ro_post, q=4, t=300,
+row('ReadOnlyUtilityPasses', 'exact', _ro_gen, _ro_make, _ro_post, q=4, t=100,
     nontrivial=lambda case, cin, cout, info: cin.num_operations >= 3)
 ROWS['ReadOnlyUtilityPasses'].covers = READONLY
 
@@ -1397,7 +1424,7 @@ def _mgd_post(case, cin, cout, info, out):
 
 row('MGDPass', 'exact', _mgd_gen,
     lambda case: {'passes': [_passes().MGDPass(case['opts']['decompose_twice'])]},
-    _mgd_post, q=6, t=600)
+    _mgd_post, q=4, t=150)
 
 
 # ============================================================= numerical rows
@@ -1522,19 +1549,21 @@ def _scan_make(case):
 
 
 row('ScanningGateRemovalPass', 'numerical', _scan_gen, _scan_make,
-    _removal_post('ScanningGateRemovalPass'), planted=_planted, q=5, t=150)
+    _removal_post('ScanningGateRemovalPass'), planted=_planted, q=3, t=40)
 
 
 @st.composite
 def _tree_gen(draw, avoid):
     circ, planted = draw(num_circuit(max_ops=6))
-    filt = 'none' if 'filter_ignored' in avoid else draw(
+    filt = 'none' if 'filter_tree' in avoid else draw(
         st.sampled_from(['none', 'none', 'none', 'single', 'multi']))
-    return {'opts': {'start_from_left': draw(st.booleans()),
+    left = True if 'tree_right' in avoid else draw(st.booleans())
+    return {'opts': {'start_from_left': left,
                      'success_threshold': draw(st.sampled_from(THRESHOLDS)),
                      'tree_depth': draw(st.sampled_from([1, 2, 2, 3])),
                      'filter': filt},
             'circ': circ, 'planted': planted,
+            'excluded': int(bool({'filter_tree', 'tree_right'} & avoid)),
             'seed': draw(st.integers(0, 2**20))}
 
 
@@ -1548,17 +1577,18 @@ def _tree_make(case):
 
 row('TreeScanningGateRemovalPass', 'numerical', _tree_gen, _tree_make,
     _removal_post('TreeScanningGateRemovalPass'), runtime=True,
-    planted=_planted, q=3, t=100)
+    planted=_planted, q=2, t=15)
 
 
 @st.composite
 def _exh_gen(draw, avoid):
     circ, planted = draw(num_circuit(max_ops=4, plant=1))
-    filt = 'none' if 'filter_ignored' in avoid else draw(
+    filt = 'none' if 'filter_exh' in avoid else draw(
         st.sampled_from(['none', 'none', 'none', 'single', 'multi']))
     return {'opts': {'success_threshold': draw(st.sampled_from(THRESHOLDS)),
                      'filter': filt},
             'circ': circ, 'planted': planted,
+            'excluded': int('filter_exh' in avoid),
             'seed': draw(st.integers(0, 2**20))}
 
 
@@ -1571,7 +1601,7 @@ def _exh_make(case):
 
 row('ExhaustiveGateRemovalPass', 'numerical', _exh_gen, _exh_make,
     _removal_post('ExhaustiveGateRemovalPass'), runtime=True,
-    planted=_planted, q=3, t=100)
+    planted=_planted, q=2, t=15)
 
 
 @st.composite
@@ -1603,7 +1633,7 @@ def _iter_post(case, cin, cout, info, out):
 
 
 row('IterativeScanningGateRemovalPass', 'numerical', _iter_gen, _iter_make,
-    _iter_post, runtime=True, planted=_planted, q=3, t=100)
+    _iter_post, runtime=True, planted=_planted, q=2, t=15)
 
 
 # -------------------------------------------------------------- SubstitutePass
@@ -1714,7 +1744,7 @@ def _sub_post(case, cin, cout, info, out):
 
 
 row('SubstitutePass', 'numerical', _sub_gen, _sub_make, _sub_post,
-    planted=_planted, q=5, t=150)
+    planted=_planted, q=3, t=40)
 # ------------------------------------------------------------ retarget (2q)
 # targets for which three applications suffice for any two-qubit block, so the
 # pass's `while g in circuit.gate_set` loop can terminate (max_depth = 3)
@@ -1782,7 +1812,7 @@ def _rebase_post(case, cin, cout, info, out):
 
 
 row('Rebase2QuditGatePass', 'numerical', _rebase_gen, _rebase_make,
-    _rebase_post, runtime=True, R=_rebase_R, q=3, t=100)
+    _rebase_post, runtime=True, R=_rebase_R, q=2, t=15)
 
 
 @st.composite
@@ -1823,7 +1853,7 @@ def _auto_post(case, cin, cout, info, out):
 
 
 row('AutoRebase2QuditGatePass', 'numerical', _auto_gen, _auto_make,
-    _auto_post, runtime=True, R=_rebase_R, q=3, t=100)
+    _auto_post, runtime=True, R=_rebase_R, q=2, t=15)
 
 
 # ------------------------------------------------------- numerical synthesis
@@ -1870,23 +1900,23 @@ row('QFASTDecompositionPass', 'numerical', _synth_gen(2, 2),
     lambda case: {'passes': [_passes().QFASTDecompositionPass(
         success_threshold=case['opts']['success_threshold'])]},
     _synth_post('QFASTDecompositionPass', {'PauliGate'}),
-    runtime=True, R=_one, q=2, t=60)
+    runtime=True, R=_one, q=1, t=8)
 row('QPredictDecompositionPass', 'numerical', _synth_gen(5, 2),
     lambda case: {'passes': [_passes().QPredictDecompositionPass(
         success_threshold=case['opts']['success_threshold'])]},
     _synth_post('QPredictDecompositionPass',
                 {'VariableUnitaryGate', 'ConstantUnitaryGate'}),
-    runtime=True, R=_one, q=2, t=60)
+    runtime=True, R=_one, q=1, t=8)
 row('LEAPSynthesisPass', 'numerical', _synth_gen(1, 1),
     lambda case: {'passes': [_passes().LEAPSynthesisPass(
         success_threshold=case['opts']['success_threshold'])]},
     _synth_post('LEAPSynthesisPass', LEAP_GATES),
-    runtime=True, R=_one, q=2, t=60)
+    runtime=True, R=_one, q=1, t=8)
 row('QSearchSynthesisPass', 'numerical', _synth_gen(1, 1),
     lambda case: {'passes': [_passes().QSearchSynthesisPass(
         success_threshold=case['opts']['success_threshold'])]},
     _synth_post('QSearchSynthesisPass', LEAP_GATES),
-    runtime=True, R=_one, q=2, t=60)
+    runtime=True, R=_one, q=1, t=8)
 
 
 @st.composite
@@ -1933,19 +1963,20 @@ def _pas_reference(case, U_in, data, out):
 row('PermutationAwareSynthesisPass', 'numerical', _pas_gen, _pas_make,
     _synth_post('PermutationAwareSynthesisPass',
                 LEAP_GATES),
-    runtime=True, R=_one, reference=_pas_reference, q=2, t=60)
+    runtime=True, R=_one, reference=_pas_reference, q=1, t=8)
 # =============================================================== analytic rows
 @st.composite
-def vu_circuit(draw, n, kmin=2, max_vu=2):
+def vu_circuit(draw, n, kmin=2, max_vu=2, kinds=None, force=False):
+    kinds = kinds or U_KINDS
     ops, nvu = [], 0
     for _ in range(draw(st.integers(1, 4))):
         if nvu < max_vu and (nvu == 0 or draw(st.integers(0, 9)) < 5):
-            lo = min(kmin, n) if draw(st.integers(0, 9)) < 8 else 2
+            lo = min(kmin, n) if force or draw(st.integers(0, 9)) < 8 else 2
             k = draw(st.integers(lo, n))
             loc = list(draw(st.permutations(range(n)))[:k])
             ops.append({'gate': gs('VariableUnitaryGate', k, [2] * k),
                         'loc': loc,
-                        'u': {'kind': draw(st.sampled_from(U_KINDS)),
+                        'u': {'kind': draw(st.sampled_from(kinds)),
                               'seed': draw(st.integers(0, 2**31))}})
             nvu += 1
         else:
@@ -1984,13 +2015,23 @@ def _decomp_post(name, full):
     return post
 
 
-def _decomp_gen(min_lo, extra=None):
+NONDEGENERATE = ['haar', 'haar', 'real', 'near_id']
+
+
+def _decomp_gen(min_lo, extra=None, flags=()):
     @st.composite
     def gen(draw, avoid):
         n = draw(st.sampled_from([3, 3, 3, 4]))
         m = draw(st.integers(min_lo, n - 1))
         o = {'min_qudit_size': m}
-        case = {'circ': draw(vu_circuit(n, m + 1)), 'seed': 0}
+        hit = set(flags) & avoid
+        case = {'circ': draw(vu_circuit(
+            n, m + 1,
+            kinds=NONDEGENERATE if 'bzxz_degenerate' in hit else None,
+            force='fullqsd_noop' in hit,
+        )), 'seed': 0}
+        if hit:
+            case['excluded'] = 1
         if extra:
             extra(draw, avoid, o, case)
         case['opts'] = o
@@ -2001,19 +2042,19 @@ def _decomp_gen(min_lo, extra=None):
 row('QSDPass', 'analytic', _decomp_gen(1),
     lambda case: {'passes': [_passes().QSDPass(
         case['opts']['min_qudit_size'])]},
-    _decomp_post('QSDPass', False), runtime=True, q=3, t=150)
-row('FullQSDPass', 'analytic', _decomp_gen(1),
+    _decomp_post('QSDPass', False), runtime=True, q=2, t=30)
+row('FullQSDPass', 'analytic', _decomp_gen(1, flags=('fullqsd_noop',)),
     lambda case: {'passes': [_passes().FullQSDPass(
         case['opts']['min_qudit_size'])]},
-    _decomp_post('FullQSDPass', True), runtime=True, q=3, t=150)
+    _decomp_post('FullQSDPass', True), runtime=True, q=2, t=30)
 # min_qudit_size >= 2: the construction (section 5.2 merge) needs >= 3-qubit
 # unitaries; FullBlockZXZPass enforces the same bound
-row('BlockZXZPass', 'analytic', _decomp_gen(2),
+row('BlockZXZPass', 'analytic', _decomp_gen(2, flags=('bzxz_degenerate',)),
     lambda case: {'passes': [_passes().BlockZXZPass(
         case['opts']['min_qudit_size'])]},
-    _decomp_post('BlockZXZPass', False), runtime=True, q=3, t=150)
+    _decomp_post('BlockZXZPass', False), runtime=True, q=2, t=30)
 
-SIG_EXTRACT = 'exc|extract_diagonal.py:decompose|ValueError|circuit.py:instantiate'
+SIG_EXTRACT = 'exc|extract_diagonal.py:decompose|ValueError|circuit.py'
 
 
 def _fbz_extra(draw, avoid, o, case):
@@ -2028,13 +2069,14 @@ def _fbz_eps(case):
     return 1e-8
 
 
-row('FullBlockZXZPass', 'analytic', _decomp_gen(2, _fbz_extra),
+row('FullBlockZXZPass', 'analytic',
+    _decomp_gen(2, _fbz_extra, flags=('bzxz_degenerate',)),
     lambda case: {'passes': [_passes().FullBlockZXZPass(
         case['opts']['min_qudit_size'],
         perform_extract=case['opts']['perform_extract'])]},
     _decomp_post('FullBlockZXZPass', True), runtime=True,
     tol=lambda case, cin: ANALYTIC_TOL if not case['opts']['perform_extract']
-    else numerical_tol(1e-8, 64), q=3, t=150)
+    else numerical_tol(1e-8, 64), q=2, t=30)
 
 
 # ------------------------------------------------- WalshDiagonalSynthesisPass
@@ -2081,7 +2123,7 @@ row('WalshDiagonalSynthesisPass', 'analytic', _walsh_gen,
     lambda case: {'passes': [_passes().WalshDiagonalSynthesisPass(
         case['opts']['parameter_precision'])]},
     _synth_post('WalshDiagonalSynthesisPass', {'RZGate', 'CNOTGate', 'CXGate'}),
-    tol=_walsh_tol, q=6, t=600)
+    tol=_walsh_tol, q=4, t=150)
 
 
 # -------------------------------------------------------- ExtractDiagonalPass
@@ -2133,7 +2175,7 @@ def _ext_post(case, cin, cout, info, out):
 
 
 row('ExtractDiagonalPass', 'numerical', _ext_gen, _ext_make, _ext_post,
-    R=lambda case, cin: len(_vu_widths(cin)), q=3, t=100)
+    R=lambda case, cin: len(_vu_widths(cin)), q=2, t=15)
 # ------------------------------------------------------------------- driver
 def row_strategy(r: Row, avoid=frozenset()):
     return r.gen(avoid).map(lambda c, n=r.name: dict(c, row=n))
@@ -2156,21 +2198,46 @@ def uncatalogued() -> list:
     return out
 
 
+def _skip_minimal(ctx: core.Ctx):
+    """Hypothesis always starts a run with the all-minimal example, the same
+    in every shard; only shard 0 executes it."""
+    first: list = []
+
+    def chk(case):
+        h = core.case_hash(case)
+        if not first:
+            first.append(h)
+        if ctx.shard != 0 and h == first[0]:
+            o = Outcome(evals=0)
+            o.label('minimal-example-left-to-shard-0')
+            return o
+        return check(case)
+    return chk
+
+
 def run_shard(ctx: core.Ctx) -> core.ShardResult:
     res = core.ShardResult()
     avoid = frozenset(
         flag for flag, sig in KNOWN_TRIGGERS.items() if ctx.is_known(sig)
     )
     try:
-        order = sorted(ROWS.values(), key=lambda r: (r.runtime, r.name))
-        for i, r in enumerate(order):
+        only = [x for x in os.environ.get('C10_ROWS', '').split(',') if x]
+        order = sorted(
+            (r for r in ROWS.values() if not only or r.name in only),
+            key=lambda r: (r.runtime, r.name),
+        )
+        # a budget that runs out must not starve the same rows in every shard
+        k = (ctx.shard * 7) % len(order)
+        for r in order[k:] + order[:k]:
             if ctx.expired():
                 res.budget_exhausted = True
                 break
+            t0 = time.monotonic()
             core.run_hypothesis(
-                ctx, res, row_strategy(r, avoid), check,
-                ctx.n(r.q, r.t) + 1, sub=i,
+                ctx, res, row_strategy(r, avoid), _skip_minimal(ctx),
+                ctx.n(r.q, r.t) + 1, sub=sorted(ROWS).index(r.name),
             )
+            res.extra['sec:' + r.name] = round(time.monotonic() - t0, 2)
     finally:
         res.extra['runtime_starts'] = RT.starts
         RT.close()
@@ -2183,10 +2250,19 @@ def run_shard(ctx: core.Ctx) -> core.ShardResult:
 
 KNOWN_TRIGGERS = {
     # flag understood by the generators -> signature that, when listed as an
-    # open known finding, makes them avoid the trigger by construction
+    # open known finding, makes them avoid the trigger by construction so the
+    # search goes on behind it (cases then carry "excluded": 1)
     'gsq_qudit': SIG_GSQ_QUDIT,
     'extract': SIG_EXTRACT,
-    'filter_ignored': 'post_filter|TreeScanningGateRemovalPass',
+    'filter_tree': 'post_filter|TreeScanningGateRemovalPass',
+    'filter_exh': 'post_filter|ExhaustiveGateRemovalPass',
+    'tree_right': 'exc|treescan.py:get_tree_circs|IndexError|circuit.py',
+    'fullqsd_noop': 'exc|qsd.py:run|ValueError|workflow.py',
+    'bzxz_degenerate': 'exc|bzxz.py:demultiplex|ValueError|unitarymatrix.py',
+    'bc_cg_variable':
+        'post_source_gone|BlockConversionPass|circuitgates->variable',
+    'bc_cg_variable2':
+        'post_not_requested|BlockConversionPass|circuitgates->variable',
 }
 
 
